@@ -32,7 +32,8 @@
 (***************************************************************************)
 EXTENDS Integers, Sequences, FiniteSets, TLC
 
-CONSTANTS FreezeBeforeMetaFlush
+CONSTANTS FreezeBeforeMetaFlush,
+          CommitSeqBeforeWrite   \* the replicator commits the sequence before it writes the rows (seeded change C07b)
 
 VARIABLES
   \* ---- durable ----
@@ -48,29 +49,31 @@ VARIABLES
   mDict, mCounter,      \* memory dictionary (mutable + immutable), memory counter
   mem, imm, immSeq,     \* mutable memdb: set of [id, seq]; frozen memdb and the sequence captured at freeze
   gen,
+  ifl,                  \* the in-flight round of the local replicator: [seq, st, ok]
   \* ---- ghost ----
   pendAck               \* a committed flush whose ack callback has not run yet
 
-vars == <<wal, gAck, qAck, dDict, dCounter, dFiles, dSeq, up, gCons, fSeq, mDict, mCounter, mem, imm, immSeq, gen, pendAck>>
+vars == <<wal, gAck, qAck, dDict, dCounter, dFiles, dSeq, up, gCons, fSeq, mDict, mCounter, mem, imm, immSeq, gen, ifl, pendAck>>
 
 Empty == [n \in {} |-> 0]
 Merge(f, g) == [n \in (DOMAIN f) \cup (DOMAIN g) |-> IF n \in DOMAIN f THEN f[n] ELSE g[n]]
 AllDict == Merge(dDict, mDict)
 AckTo(s, c, a) == IF s >= a /\ s <= c THEN s ELSE a
+NoIfl == [seq |-> -1, st |-> "none", ok |-> FALSE]
 
 Init ==
   /\ wal = << >> /\ gAck = -1 /\ qAck = -1 /\ dDict = Empty /\ dCounter = 0 /\ dFiles = {} /\ dSeq = -1
   /\ up = TRUE /\ gCons = -1 /\ fSeq = -1
-  /\ mDict = Empty /\ mCounter = 0 /\ mem = {} /\ imm = {} /\ immSeq = -1 /\ gen = 0 /\ pendAck = FALSE
+  /\ mDict = Empty /\ mCounter = 0 /\ mem = {} /\ imm = {} /\ immSeq = -1 /\ gen = 0 /\ ifl = NoIfl /\ pendAck = FALSE
 
 AppendEntry(n) ==
   /\ up
   /\ wal' = Append(wal, n)
-  /\ UNCHANGED <<gAck, qAck, dDict, dCounter, dFiles, dSeq, up, gCons, fSeq, mDict, mCounter, mem, imm, immSeq, gen, pendAck>>
+  /\ UNCHANGED <<gAck, qAck, dDict, dCounter, dFiles, dSeq, up, gCons, fSeq, mDict, mCounter, mem, imm, immSeq, gen, ifl, pendAck>>
 
 \* one round of the local replicator
 ReplicaStep ==
-  /\ up /\ gCons + 1 <= Len(wal) - 1
+  /\ up /\ ifl = NoIfl /\ gCons + 1 <= Len(wal) - 1
   /\ LET s == gCons + 1  n == wal[s + 1] IN
      /\ gCons' = s
      /\ IF s > fSeq
@@ -82,7 +85,39 @@ ReplicaStep ==
                          /\ mem' = mem \cup {[id |-> mCounter, seq |-> s]}
                /\ fSeq' = s
           ELSE UNCHANGED <<mem, mDict, mCounter, fSeq>>       \* ValidateSequence rejects: already persisted
-  /\ UNCHANGED <<wal, gAck, qAck, dDict, dCounter, dFiles, dSeq, up, imm, immSeq, gen, pendAck>>
+  /\ UNCHANGED <<wal, gAck, qAck, dDict, dCounter, dFiles, dSeq, up, imm, immSeq, gen, ifl, pendAck>>
+
+\* The same round in the three steps of localReplicator.Replica, so that the flush job can fall between
+\* them (the replicator and the flush checker are different goroutines; no lock spans the round):
+\*   RBegin   consume + ValidateSequence          RWrite   family.WriteRows (ids for new names)
+\*   RCommit  the deferred family.CommitSequence
+RBegin ==
+  /\ up /\ ifl = NoIfl /\ gCons + 1 <= Len(wal) - 1
+  /\ LET s == gCons + 1 IN
+     /\ gCons' = s
+     /\ ifl' = [seq |-> s, st |-> "validated", ok |-> s > fSeq]
+     /\ fSeq' = IF CommitSeqBeforeWrite /\ s > fSeq THEN s ELSE fSeq
+  /\ UNCHANGED <<wal, gAck, qAck, dDict, dCounter, dFiles, dSeq, up, mDict, mCounter, mem, imm, immSeq, gen, pendAck>>
+
+RWrite ==
+  /\ up /\ ifl.st = "validated"
+  /\ ifl' = [ifl EXCEPT !.st = "written"]
+  /\ LET s == ifl.seq  n == wal[s + 1] IN
+     IF ifl.ok
+       THEN IF n \in DOMAIN AllDict
+              THEN /\ mem' = mem \cup {[id |-> AllDict[n], seq |-> s]}
+                   /\ UNCHANGED <<mDict, mCounter>>
+              ELSE /\ mDict' = Merge(mDict, [x \in {n} |-> mCounter])
+                   /\ mCounter' = mCounter + 1
+                   /\ mem' = mem \cup {[id |-> mCounter, seq |-> s]}
+       ELSE UNCHANGED <<mem, mDict, mCounter>>
+  /\ UNCHANGED <<wal, gAck, qAck, dDict, dCounter, dFiles, dSeq, up, gCons, fSeq, imm, immSeq, gen, pendAck>>
+
+RCommit ==
+  /\ up /\ ifl.st = "written"
+  /\ ifl' = NoIfl
+  /\ fSeq' = IF ifl.ok /\ ~CommitSeqBeforeWrite THEN ifl.seq ELSE fSeq
+  /\ UNCHANGED <<wal, gAck, qAck, dDict, dCounter, dFiles, dSeq, up, gCons, mDict, mCounter, mem, imm, immSeq, gen, pendAck>>
 
 Freeze == imm' = mem /\ mem' = {} /\ immSeq' = fSeq
 
@@ -92,14 +127,14 @@ MetaFlush ==
   /\ dCounter' = mCounter
   /\ dDict' = Merge(dDict, mDict) /\ mDict' = Empty
   /\ IF FreezeBeforeMetaFlush /\ imm = {} THEN Freeze ELSE UNCHANGED <<imm, mem, immSeq>>
-  /\ UNCHANGED <<wal, gAck, qAck, dFiles, dSeq, up, gCons, fSeq, mCounter, gen, pendAck>>
+  /\ UNCHANGED <<wal, gAck, qAck, dFiles, dSeq, up, gCons, fSeq, mCounter, gen, ifl, pendAck>>
 
 \* DataFamily.Flush, first half: the mutable memory database becomes immutable and the replica
 \* sequence is captured (writes arriving later go to a new memory database)
 FamilyFreeze ==
   /\ up /\ ~FreezeBeforeMetaFlush /\ imm = {} /\ mem # {} /\ ~pendAck
   /\ Freeze
-  /\ UNCHANGED <<wal, gAck, qAck, dDict, dCounter, dFiles, dSeq, up, gCons, fSeq, mDict, mCounter, gen, pendAck>>
+  /\ UNCHANGED <<wal, gAck, qAck, dDict, dCounter, dFiles, dSeq, up, gCons, fSeq, mDict, mCounter, gen, ifl, pendAck>>
 
 \* ... second half: table written, file + captured sequence committed in ONE manifest record
 FamilyCommit ==
@@ -108,7 +143,7 @@ FamilyCommit ==
   /\ dSeq' = IF immSeq > dSeq THEN immSeq ELSE dSeq
   /\ imm' = {}
   /\ gen' = gen + 1 /\ pendAck' = TRUE
-  /\ UNCHANGED <<wal, gAck, qAck, dDict, dCounter, up, gCons, fSeq, mDict, mCounter, mem, immSeq>>
+  /\ UNCHANGED <<wal, gAck, qAck, dDict, dCounter, up, gCons, fSeq, mDict, mCounter, mem, immSeq, ifl>>
 
 \* both halves in one step (what a sequential driver observes of one DataFamily.Flush call)
 FamilyFreezeAndCommit ==
@@ -117,25 +152,25 @@ FamilyFreezeAndCommit ==
   /\ dSeq' = IF fSeq > dSeq THEN fSeq ELSE dSeq
   /\ mem' = {} /\ immSeq' = fSeq
   /\ gen' = gen + 1 /\ pendAck' = TRUE
-  /\ UNCHANGED <<wal, gAck, qAck, dDict, dCounter, up, gCons, fSeq, mDict, mCounter, imm>>
+  /\ UNCHANGED <<wal, gAck, qAck, dDict, dCounter, up, gCons, fSeq, mDict, mCounter, imm, ifl>>
 
 \* ... the ack callbacks after the commit
 FamilyAck ==
   /\ up /\ pendAck
   /\ gAck' = AckTo(immSeq, gCons, gAck)
   /\ pendAck' = FALSE
-  /\ UNCHANGED <<wal, qAck, dDict, dCounter, dFiles, dSeq, up, gCons, fSeq, mDict, mCounter, mem, imm, immSeq, gen>>
+  /\ UNCHANGED <<wal, qAck, dDict, dCounter, dFiles, dSeq, up, gCons, fSeq, mDict, mCounter, mem, imm, immSeq, gen, ifl>>
 
 \* Partition.IsExpire: FanOutQueue.Sync (queue-wide position := smallest group position) + GC
 SyncGC ==
   /\ up
   /\ LET m == IF gAck < Len(wal) - 1 THEN gAck ELSE Len(wal) - 1 IN
      qAck' = IF m >= 0 /\ m > qAck THEN m ELSE qAck
-  /\ UNCHANGED <<wal, gAck, dDict, dCounter, dFiles, dSeq, up, gCons, fSeq, mDict, mCounter, mem, imm, immSeq, gen, pendAck>>
+  /\ UNCHANGED <<wal, gAck, dDict, dCounter, dFiles, dSeq, up, gCons, fSeq, mDict, mCounter, mem, imm, immSeq, gen, ifl, pendAck>>
 
 Crash ==
   /\ up /\ up' = FALSE
-  /\ mDict' = Empty /\ mem' = {} /\ imm' = {} /\ pendAck' = FALSE
+  /\ mDict' = Empty /\ mem' = {} /\ imm' = {} /\ pendAck' = FALSE /\ ifl' = NoIfl
   /\ UNCHANGED <<wal, gAck, qAck, dDict, dCounter, dFiles, dSeq, gCons, fSeq, mCounter, immSeq, gen>>
 
 \* Beyond a process kill: the consumer group's meta page (positions are stored without a sync on
@@ -144,7 +179,7 @@ Crash ==
 LogRollback(c, a) ==
   /\ ~up /\ a <= c /\ c <= gCons /\ a <= gAck /\ a >= -1
   /\ gCons' = c /\ gAck' = a
-  /\ UNCHANGED <<wal, qAck, dDict, dCounter, dFiles, dSeq, up, fSeq, mDict, mCounter, mem, imm, immSeq, gen, pendAck>>
+  /\ UNCHANGED <<wal, qAck, dDict, dCounter, dFiles, dSeq, up, fSeq, mDict, mCounter, mem, imm, immSeq, gen, ifl, pendAck>>
 
 \* reopen: NewLocalReplicator registers the ack callback (invoked at once with the recorded sequence)
 \* and rewinds the replica index to ack + 1
@@ -157,7 +192,7 @@ Recover ==
          c0 == IF gCons < a0 THEN a0 ELSE gCons
          a == AckTo(dSeq, c0, a0)
      IN gAck' = a /\ gCons' = a
-  /\ UNCHANGED <<wal, qAck, dDict, dCounter, dFiles, dSeq, mDict, mem, imm, gen, pendAck>>
+  /\ UNCHANGED <<wal, qAck, dDict, dCounter, dFiles, dSeq, mDict, mem, imm, gen, ifl, pendAck>>
 
 \* ------------------------------------------------------------------ properties (C07)
 \* the log's acknowledged position never runs ahead of the sequence stored durably with the data
